@@ -748,6 +748,18 @@ def t_forward_deep(rng, depth, in_function, nest_first=True):
 
 
 # ---- the forward gate on dependency graphs -----------------------------------------------------------------------
+def pick_callees(rng, declared, forwards, n):
+    """n distinct callees among the declared names, forward functions twice as likely as helpers"""
+    pool = list(declared)
+    out = []
+    while pool and len(out) < n:
+        weights = [2 if x in forwards else 1 for x in pool]
+        c = rng.choices(pool, weights)[0]
+        pool.remove(c)
+        out.append(c)
+    return out
+
+
 def gate_graph(rng, in_function):
     """1-4 forward functions, 0-3 helper functions, implementations and helpers calling each other in a random
     graph (cycles allowed; every body is guarded `if(x <= 0, c, callee(x-1) + ...)`), declarations in a random order,
@@ -756,18 +768,19 @@ def gate_graph(rng, in_function):
     at once, a default parameter value.  Returns (decls, expected_safe): the independent oracle — does the use reach,
     through the bodies of the functions it calls and the implementations given so far, a forward function that has
     no implementation yet at the point of the invocation."""
-    k = rng.randrange(1, 5)
+    k = rng.choice([1, 2, 2, 3, 3, 4])
     m = rng.randrange(0, 4)
     F = [f'f{i}' for i in range(k)]
     Wn = [f'w{j}' for j in range(m)]
     never = {f for f in F if rng.random() < 0.2}
-    events = [('fwd', f) for f in F] + [('impl', f) for f in F if f not in never] + [('helper', w) for w in Wn] + [('use', None)]
-    while True:
-        rng.shuffle(events)
-        pos = {e: i for i, e in enumerate(events)}
-        if all(pos[('fwd', f)] < pos[('impl', f)] for f in F if f not in never) and pos[('use', None)] > 0 \
-                and any(e[0] in ('fwd', 'helper') for e in events[:pos[('use', None)]]):
-            break
+    # the forward declarations first (any order), then helpers (rather early: defined while forwards are pending),
+    # implementations (rather late) and the use (in between), by random keys
+    fw = [('fwd', f) for f in F]
+    rng.shuffle(fw)
+    keyed = [(rng.uniform(0.0, 0.6), ('helper', w)) for w in Wn] + \
+            [(rng.uniform(0.15, 1.0), ('impl', f)) for f in F if f not in never] + [(rng.uniform(0.4, 0.95), ('use', None))]
+    keyed.sort(key=lambda t: t[0])
+    events = fw + [e for _, e in keyed]
     start = k + m + 2
     X = ('v', 'x')
 
@@ -784,7 +797,7 @@ def gate_graph(rng, in_function):
             ds.append(fwd(name, [('x', INT)], INT))
             declared.append(name)
         elif kind == 'impl':
-            callees = rng.sample(declared, rng.randrange(0, min(2, len(declared)) + 1))
+            callees = pick_callees(rng, declared, F, rng.choice([0, 1, 1, 2]))
             deps[('impl', name)] = list(callees)
             impl_at[name] = idx
             ds.append(('fn', name, [('x', INT, None)], INT, [], body(callees, 10 + idx)))
@@ -792,7 +805,7 @@ def gate_graph(rng, in_function):
             if not declared:
                 callees = []
             else:
-                callees = rng.sample(declared, rng.randrange(1, min(2, len(declared)) + 1))
+                callees = pick_callees(rng, declared, F, rng.choice([1, 1, 2]))
             deps[('helper', name)] = list(callees)
             shape = rng.choice(['plain', 'inner', 'lambda'])
             if shape == 'plain' or not callees:
@@ -806,8 +819,11 @@ def gate_graph(rng, in_function):
             ds.append(d)
             declared.append(name)
         else:
-            target = rng.choice(declared)
-            use_form = rng.choice(['call', 'value', 'lambda', 'default', 'call', 'nested-now'])
+            hs = [n for n in declared if n not in F]
+            target = rng.choice(hs) if (hs and rng.random() < 0.6) else rng.choice(declared)
+            use_form = rng.choice(['call', 'call', 'call', 'value', 'value', 'default', 'default', 'lambda', 'lambda', 'lambda',
+                                   'lambda', 'nested-now', 'nested-now', 'nested-now', 'nested-now', 'nested-now',
+                                   'helper-now', 'helper-now', 'helper-now', 'helper-now'])
             # the oracle: reachability at this point of the text
             implemented = {f for f, at in impl_at.items() if at < idx}
             seen, stack, safe = set(), [target], True
@@ -834,6 +850,9 @@ def gate_graph(rng, in_function):
             elif use_form == 'default':
                 ds.append(('fn', 'dfl', [('q', INT, ('c', target, [arg]))], INT, [], ('v', 'q')))
                 ds.append(('let', 'u', ('c', 'dfl', []), INT))
+            elif use_form == 'helper-now':
+                ds.append(('fn', 'via', [('x', INT, None)], INT, [], ('c', target, [X])))
+                ds.append(('let', 'u', ('c', 'via', [arg]), INT))
             else:
                 via = ('fn', 'via', [('x', INT, None)], INT,
                        [('fn', 'deep', [('x', INT, None)], INT, [], ('c', target, [X]))], ('c', 'deep', [X]))
@@ -1097,7 +1116,7 @@ def run(chk):
             for rep in range(2 if quick else 12):
                 cases.append(FCase(t_forward_deep(rng, depth, in_function), f"forward-deep-{depth}"))
         cases.append(FCase(t_forward_deep(rng, depth, True, nest_first=False), f"forward-deep-{depth}"))
-    gsafe, gunsafe = gate_graph_family(chk, 60 if quick else 1500)
+    gsafe, gunsafe = gate_graph_family(chk, 200 if quick else 3000)
     cases += gsafe
     cases.append(FCase(t_forward_escape(0), "fwd-escape"))
     cases.append(FCase(t_forward_escape(1), "fwd-escape"))
